@@ -211,7 +211,7 @@ func checkC09(ctx *Ctx, r *Report, tier string) {
 		s := e.summarize(fn)
 		var gw []string
 		for _, w := range s.writes {
-			if w.root.kind == "global" && !w.guarded && strings.HasPrefix(w.root.name, modPath) {
+			if w.root.kind == "global" && strings.HasPrefix(w.root.name, modPath) { // also under a lock: mutual exclusion does not undo the coupling of successive renders
 				gw = append(gw, fmt.Sprintf("%s [%s]", w.root, shortKey(w.why, 160)))
 			}
 		}
